@@ -105,6 +105,12 @@ def gen_plan(seed, tier):
                                            for _ in range(r.randint(1, 3))]})
     if r.chance(0.4):
       steps.append({"task": True, "calls": ["callLater"] * r.randint(1, 2)})
+      rtb = Rng(mix(seed, "taskburst"))
+      if rtb.chance(0.5):
+        steps[-1].update(burst=True,
+                         calls=[rtb.pick(["callLater", "call_later",
+                                          "raiseLater"])
+                                for _ in range(rtb.randint(2, 4))])
   elif w == "w2":
     for i in range(r.randint(2, 3)):
       steps.append({"thread": i, "wakes": r.randint(1, 3)})
@@ -320,11 +326,17 @@ def _w1(sim, world, eng, plan):
     else:
       who = "task"
 
+      burst = st.get("burst")
+
       class Sub(R.Task):
-        def run(self_, calls=calls, who=who):
+        def run(self_, calls=calls, who=who, burst=burst):
           for j, how in enumerate(calls):
             submit(who, j, how)
-            yield 0
+            if not burst:
+              yield 0
+          # (burst: everything handed over within one step, on the
+          # scheduler's own thread; it runs later all the same, in order)
+          yield 0
       Sub().start()
   res = _controller(sim, world, eng, lambda: len(log) >= total[0])
   fin = eng.run()
